@@ -20,11 +20,41 @@ PYX = "/repo/src/chmpy/shape/_sht.pyx"
 
 
 # ----------------------------------------------------------------------------------- replay
+def legendre_agreement(Ls=(1, 5, 8, 16, 17, 24, 32, 48, 64)):
+    """the pure-Python Legendre class (chmpy.shape.AssocLegendre) and the compiled one (SHT.plm) give the same orthonormal
+    values, and both match the closed form through scipy, at degrees beyond the symbolic bound"""
+    from chmpy.shape import AssocLegendre as PyLegendre
+    from chmpy.shape.sht import SHT
+    from scipy.special import lpmv, gammaln
+    bad = []
+    for L in Ls:
+        py, co = PyLegendre(L), SHT(L).plm
+        for x in (-0.83, 0.11, 0.62):
+            a, b = np.asarray(py.evaluate_batch(x), float), np.asarray(co.evaluate_batch(x), float)
+            if a.shape != b.shape or not np.allclose(a, b, rtol=1e-9, atol=1e-12):
+                bad.append("L=%d x=%.2f: pure-Python and compiled associated Legendre values differ (max %.3g)" % (L, x, np.abs(a - b).max() if a.shape == b.shape else -1))
+                break
+            k, worst = 0, 0.0
+            for m in range(L + 1):
+                for l in range(m, L + 1):
+                    norm = math.exp(0.5 * (math.log((2 * l + 1) / (4 * math.pi)) + gammaln(l - m + 1) - gammaln(l + m + 1)))
+                    ref = norm * lpmv(m, l, x) * ((-1) ** m)
+                    worst = max(worst, abs(abs(a[k]) - abs(ref)) / max(1e-300, abs(ref)) if abs(ref) > 1e-200 else 0.0)
+                    k += 1
+            if worst > 1e-6:
+                bad.append("L=%d x=%.2f: Legendre values differ from the closed orthonormal form (relative %.3g)" % (L, x, worst))
+                break
+    return bad
+
+
 def replay_sht(data):
     """numeric statement on the real API: analysis of Y_lm gives unit coefficients, round trips, kernels == pure python"""
     from chmpy.shape.sht import SHT
     from scipy.special import sph_harm_y
     bad = []
+    if data.get("legendre"):
+        bad += legendre_agreement()
+        return bool(bad), bad[:3]
     for L in data.get("L", [1, 2, 3, 4, 7]):
         try:
             sht = SHT(L)
@@ -42,14 +72,14 @@ def replay_sht(data):
             for m in range(-l, l + 1):
                 f += c[l * (l + 1) + m] * sph_harm_y(l, m, theta, phi)
         got = sht.analysis(f)
-        if not np.allclose(got, c, atol=1e-10):
+        if not np.allclose(got, c, rtol=0, atol=1e-10):
             k = int(np.argmax(np.abs(got - c)))
             bad.append("L=%d: complex analysis of sum c_lm Y_lm does not return c (worst index %d: %.4g vs %.4g)" % (L, k, abs(got[k]), abs(c[k])))
-        if not np.allclose(sht.analysis_pure_python_cplx(f), got, atol=1e-11):
+        if not np.allclose(sht.analysis_pure_python_cplx(f), got, rtol=0, atol=1e-11):
             bad.append("L=%d: compiled complex analysis != pure-python reference" % L)
-        if not np.allclose(sht.synthesis(c), f, atol=1e-10):
+        if not np.allclose(sht.synthesis(c), f, rtol=0, atol=1e-10):
             bad.append("L=%d: complex synthesis does not reproduce the function" % L)
-        if not np.allclose(sht.synthesis_pure_python_cplx(c), sht.synthesis(c), atol=1e-11):
+        if not np.allclose(sht.synthesis_pure_python_cplx(c), sht.synthesis(c), rtol=0, atol=1e-11):
             bad.append("L=%d: compiled complex synthesis != pure-python reference" % L)
         # real transform
         cr = rng.normal(size=sht.nplm()) + 1j * rng.normal(size=sht.nplm())
@@ -60,11 +90,11 @@ def replay_sht(data):
         for l in range(L + 1):
             for m in range(-l, l + 1):
                 fr2 += full[l * (l + 1) + m] * sph_harm_y(l, m, theta, phi)
-        if not np.allclose(fr, fr2.real, atol=1e-10) or np.abs(fr2.imag).max() > 1e-10:
+        if not np.allclose(fr, fr2.real, rtol=0, atol=1e-10) or np.abs(fr2.imag).max() > 1e-10:
             bad.append("L=%d: real synthesis / coefficient expansion inconsistent with the harmonics" % L)
-        if not np.allclose(sht.analysis(fr), cr, atol=1e-10):
+        if not np.allclose(sht.analysis(fr), cr, rtol=0, atol=1e-10):
             bad.append("L=%d: real synthesis followed by analysis does not return the coefficients" % L)
-        if not np.allclose(sht.analysis_pure_python(fr), sht.analysis(fr), atol=1e-11) or not np.allclose(sht.synthesis_pure_python(cr), fr, atol=1e-11):
+        if not np.allclose(sht.analysis_pure_python(fr), sht.analysis(fr), rtol=0, atol=1e-11) or not np.allclose(sht.synthesis_pure_python(cr), fr, rtol=0, atol=1e-11):
             bad.append("L=%d: compiled real kernels != pure-python reference" % L)
         t0, p0 = 0.83, 2.1
         v = sht.evaluate_at_points(cr, t0, p0)
@@ -116,6 +146,11 @@ def run(ctx):
               "(d) round trip L <= %d, all coefficient vectors in [-1,1]^n" % (512 if thorough else 64, 8, 10 if thorough else 6, 6 if thorough else 4))
     ctx.assume("exact arithmetic; scipy.fft.fft/ifft(norm='forward') = the DFT definition; roots_legendre nodes/weights taken from scipy as rationals (checked: sum w = 2, P_n(x_i) ~ 0)")
     ctx.out_of_scope("full pipeline for L > 6; floating-point accumulation error; Parseval (quadratic) beyond the per-degree identities of C08")
+    lb = legendre_agreement()
+    ctx.record("legendre: pure-Python and compiled classes agree with each other and with the closed form at degrees 1..64 (9 degrees x 3 arguments, numeric: beyond the symbolic bound)",
+               "holds" if not lb else "counterexample", nontrivial=True, method="ground instances")
+    if lb:
+        ctx.violation("sht:legendre-high", lb[0], {"legendre": True}, replay_sht)
     ctx.parallel_sections([("grid", lambda c: part_grid(c, thorough)), ("legendre", lambda c: part_legendre(c, thorough)),
                            ("kernels", lambda c: part_kernels(c, thorough)), ("roundtrip", lambda c: part_roundtrip(c, thorough)),
                            ("pointwise", lambda c: part_pointwise(c, thorough))])
@@ -373,7 +408,7 @@ def part_kernels(ctx, thorough):
     mc = pyx2py.load(PYX, "chmpy.shape._sht__pyc", dict(pyxrt.RUNTIME), package="chmpy.shape")
     rng = np.random.default_rng(ctx.seed)
     a, b = so.AssocLegendre(6), mc.AssocLegendre(6)
-    okc = np.allclose(a.evaluate_batch(0.3), b.evaluate_batch(0.3), atol=1e-15)
+    okc = np.allclose(a.evaluate_batch(0.3), b.evaluate_batch(0.3), rtol=0, atol=1e-15)
     cr = rng.normal(size=15) + 1j * rng.normal(size=15)
     okc = okc and np.array_equal(so.expand_coeffs_to_full(4, cr), mc.expand_coeffs_to_full(4, cr))
     ctx.compiled_check("pyx2py(_sht.pyx) == compiled module (Legendre values, coefficient expansion)", okc)
